@@ -36,6 +36,7 @@ def generate(rng, tier):
                 hi_ok = arch == "x86"      # pointer authentication bits live in the upper bits on aarch64
                 ba = (0x10000000 * (mi + 1) + 0x1000 * rng.below(16)) if which == 0 else rng.choice(
                     [0x7f0000000000 + 0x1000 * rng.below(1 << 20), 0x1000 * rng.range(1, 64) + 0x200000 * mi,
+                     (1 << 32) * (2 * mi + rng.range(1, 2)) - 0x1000 * rng.range(1, 2),       # image straddles a 4 GiB boundary
                      ((1 << 63) if hi_ok else (1 << 46)) + 0x1000 * rng.below(1 << 30) + 0x40000000 * mi])
                 fdes = truth.program_fdes(funcs, base_svma)
                 name = "M%d" % mi; mi += 1
@@ -85,7 +86,10 @@ def judge(script, impl):
         def shift(item):
             t = item.split()
             if t[0] == "ok" and t[1] in ("ip", "ra"):
-                return "ok %s 0x%x sp=0x%x fp=0x%x" % (t[1], (int(t[2], 16) + dm) & M64, (int(t[3][3:], 16) + ds) & M64, (int(t[4][3:], 16) + ds) & M64)
+                fpv = int(t[4][3:], 16)
+                if 0x7fff0000 - 0x100000 <= fpv <= 0x7fff0000 + 0x1000:      # a pointer into the (original) stack moves with it
+                    fpv = (fpv + ds) & M64
+                return "ok %s 0x%x sp=0x%x fp=0x%x" % (t[1], (int(t[2], 16) + dm) & M64, (int(t[3][3:], 16) + ds) & M64, fpv)
             if t[0] == "err" and t[1] == "CouldNotReadStack":
                 return "err CouldNotReadStack 0x%x" % ((int(t[2], 16) + ds) & M64)
             return item
